@@ -152,7 +152,7 @@ class Engine:
             if v is not self and imm(v) and not isinstance(v, tuple):
                 if not rebound:
                     out = C(v)
-            elif v is self and not rebound and isinstance(vals[0], ast.Call):
+            elif v is self and not rebound and isinstance(vals[0], (ast.Call, ast.Tuple, ast.Lambda)):
                 # an immutable record built once at import time: a NamedTuple instance, a
                 # functools.partial, an operator.itemgetter - the value itself is used
                 cache[key] = None  # (guards against cycles while evaluating)
@@ -171,6 +171,17 @@ class Engine:
             return True
         if t[0] == "global" and len(t) == 2 and not t[1].startswith("const:"):
             return True
+        if t[0] == "global" and len(t) == 2 and t[1].startswith("const:"):
+            # a reference to another module constant: immutable if that one is
+            busy = self.__dict__.setdefault("_imm_busy", set())
+            if t[1] in busy:
+                return False
+            busy.add(t[1])
+            try:
+                short, name = t[1][6:].split(".", 1)
+                return self.immutable_const(short, name) is not None or self._immutable_value(self.const_literal(t[1][6:]) or ())
+            finally:
+                busy.discard(t[1])
         if t[0] == "nt" and len(t) == 3:
             return all(self._immutable_value(x) for x in t[2])
         if t[0] == "partial" and len(t) == 4:
